@@ -380,9 +380,11 @@ def run(ck):
                     winner = spreads[-1]
                     verdict = (winner == kwname) if last == 'kwargs' else (winner == lp)
         if verdict is None:
-            # other idioms (dict(); update()) are outside the recognised spread idiom
-            raise AnalysisError(R4c, f"DataEdit.{mname}: edit is not a two-spread dict display; "
-                                "precedence not decidable by this rule")
+            # other idioms (dict(); update()) are outside the recognised spread idiom: the
+            # precedence is then decided by R16.4d alone (abstract evaluation of the edit)
+            ck.ob(R4c, m.fid, True, f"{mname}: not a two-spread dict display; the precedence on a "
+                  "key clash is decided by R16.4d (key-equality domain)", m, m.node)
+            continue
         ck.ob(R4c, m.fid, verdict,
               f"{mname}: the {'new items' if last == 'kwargs' else 'existing data'} win on a key "
               f"clash" if verdict else
@@ -483,14 +485,17 @@ def _dataedit_semantics(ck, de):
     R = ck.rule('R16.4d', "every DataEdit operation has the documented dictionary effect on every "
                 "mapping over a three-key universe and every choice of parameter keys (complete "
                 "key-equality domain): add, setdefault, copy, rename, delete, permit, modify, "
-                "add_output", 'key-equality domain', 8)
+                "add_output; and no operation keeps state between two deliveries", 'key-equality domain', 16)
     m = de.methods
     REJ, DEL = object(), object()
     total = 0
 
-    def run_edit(mname, params, data):
+    def run_edit(mname, params, data, share=False):
         pnames, body, kind = _edit_function(ck, R, m[mname])
-        env = dict(params)
+        # share=True: the captured parameter objects are the very same objects for consecutive
+        # deliveries (as the closure's cells are); otherwise mapping-valued parameters are copied
+        env = dict(params) if share else {k: (dict(v) if isinstance(v, dict) else v)
+                                          for k, v in params.items()}
         d = dict(data)
         env[pnames[0]] = d
         it = DictInterp(R, env)
@@ -511,6 +516,36 @@ def _dataedit_semantics(ck, de):
             if got != want and bad is None:
                 bad = (params, data, want, got)
         total += n
+        # ---- the edit concerns "the data of that one delivery": the same filter object applied to
+        # a second event must behave as if it were fresh, even if the first result was edited in
+        # place downstream (no state captured in, or aliased with, the closure)
+        groups = {}
+        for params, data, want in cases:
+            key = tuple(sorted((k, id(v) if callable(v) or type(v) is object else repr(v))
+                               for k, v in params.items()))
+            groups.setdefault(key, (params, []))[1].append((data, want))
+        leak = None
+        npairs = 0
+        for params, dl in groups.values():
+            for d1, _w1 in dl:
+                for d2, w2 in dl:
+                    shared = {k: (dict(v) if isinstance(v, dict) else v) for k, v in params.items()}
+                    r1 = run_edit(mname, shared, d1, share=True)
+                    if isinstance(r1, dict):
+                        r1.clear()          # a later filter may edit the delivered data in place
+                    r2 = run_edit(mname, shared, d2, share=True)
+                    npairs += 1
+                    ck.abstract_cases += 1
+                    if r2 != w2 and leak is None:
+                        leak = (params, d1, d2, w2, r2)
+        total += npairs
+        ck.ob(R, f"{FIL}:DataEdit.{mname} :: no state between deliveries", leak is None,
+              f"{describe}: {npairs} (first event, second event) pairs through one filter object, "
+              f"the second result never depends on the first" if leak is None else
+              f"{mname}: state leaks from one delivery into the next: parameters "
+              f"{ {k: v for k, v in leak[0].items() if not callable(v) and type(v) is not object} }, first "
+              f"event {leak[1]}, then event {leak[2]} yields {leak[4]} instead of {leak[3]}",
+              m[mname], m[mname].node)
         ck.ob(R, f"{FIL}:DataEdit.{mname}", bad is None,
               f"{describe}: {n} cases, all as documented" if bad is None else
               f"{describe}: with parameters { {k: v for k, v in bad[0].items() if not callable(v)} } "
